@@ -6,132 +6,157 @@
 //! suffix `@panic=<kind>:<nth>`; `cache_trace replay` re-executes it.
 //!
 //!   panic_trace <seed> <nstates> <prefix_steps> [max_points_per_op]
-use harness::trace::*;
 use harness::*;
 use std::io::Write as _;
 
 #[global_allocator]
 static ALLOC: failalloc::FailAlloc = failalloc::FailAlloc;
 
-fn rebuild(cfg: (usize, usize, u8), universe: u32, prefix: &[(usize, Op)], out: &mut impl std::io::Write) -> World {
-    let mut w = World { slots: vec![None, None, None], universe, cfg, log: Vec::new() };
-    new_cache(&mut w, 0, cfg.0, cfg.1, cfg.2, out);
-    for (slot, op) in prefix {
-        if w.slots[*slot].is_none() && !matches!(op, Op::Clone(_)) { continue; }
-        do_step(&mut w, *slot, op, out);
-    }
-    w
-}
 
-fn candidates(w: &World, rng: &mut Rng, tok0: u64) -> Vec<(usize, Op)> {
-    let c = match w.slots[0].as_ref() { Some(c) => c, None => return vec![] };
-    let e0 = lru_mem::entry_size(&VKey::probe(0), &VVal { tok: 0, tag: 0, heap: 0 });
-    let keys: Vec<u32> = c.keys().map(|k| k.id.0).collect();
-    let present = |rng: &mut Rng| if keys.is_empty() { 0 } else { keys[rng.below(keys.len() as u64) as usize] };
-    let absent = (0..w.universe + 1).find(|i| !keys.contains(i)).unwrap_or(w.universe);
-    let free = c.max_size().saturating_sub(c.current_size());
-    let maxs = c.max_size();
-    let mut t = tok0;
-    let mut nt = || { t += 1; t };
-    let mut v: Vec<(usize, Op)> = Vec::new();
-    let lru = keys.first().copied().unwrap_or(0);
-    let mru = keys.last().copied().unwrap_or(0);
-    // insertions: fresh key that fits, fresh key that needs eviction, replacement, too large
-    v.push((0, Op::Insert(absent, nt(), 0, nt(), 7, 0)));
-    if maxs >= e0 && maxs < 1 << 40 { v.push((0, Op::Insert(absent, nt(), 0, nt(), 7, (maxs - e0).min(free.saturating_add(e0))))); }
-    v.push((0, Op::Insert(present(rng), nt(), 5, nt(), 8, 17)));
-    if maxs < 1 << 40 { v.push((0, Op::Insert(absent, nt(), 0, nt(), 9, maxs.saturating_sub(e0) + 1))); }
-    v.push((0, Op::TryInsert(absent, nt(), 0, nt(), 7, 1)));
-    v.push((0, Op::TryInsert(present(rng), nt(), 0, nt(), 7, 1)));
-    v.push((0, Op::Get(present(rng)))); v.push((0, Op::Get(absent)));
-    v.push((0, Op::Peek(lru))); v.push((0, Op::Contains(mru))); v.push((0, Op::Touch(lru)));
-    v.push((0, Op::Remove(present(rng)))); v.push((0, Op::RemoveEntry(mru)));
-    v.push((0, Op::RemoveLru)); v.push((0, Op::RemoveMru));
-    // mutate: shrink, grow that fits, grow that needs eviction, grow beyond the limit, absent key
-    let cur_v = |id: u32| c.peek(&KeyId(id)).map(|x| x.heap).unwrap_or(0);
-    v.push((0, Op::Mutate(lru, nt(), cur_v(lru).saturating_sub(3))));
-    v.push((0, Op::Mutate(mru, nt(), cur_v(mru) + 1)));
-    if free < 1 << 40 { v.push((0, Op::Mutate(lru, nt(), cur_v(lru) + free + 1 + e0 / 2))); }
-    if maxs < 1 << 40 { v.push((0, Op::Mutate(present(rng), nt(), maxs))); }
-    v.push((0, Op::Mutate(absent, nt(), 5)));
-    v.push((0, Op::SetMax(c.current_size() / 2)));
-    v.push((0, Op::Retain(0x5555_5555_5555_5555))); v.push((0, Op::Retain(rng.next())));
-    v.push((0, Op::Reserve(c.capacity() + 1))); v.push((0, Op::TryReserve(c.capacity() + 5, false)));
-    v.push((0, Op::ShrinkToFit)); v.push((0, Op::ShrinkTo(1)));
-    v.push((0, Op::Clone(1)));
-    v
-}
+// the whole generator, instantiated for a module of harness (one per combination of key / value types)
+macro_rules! panic_gen {
+    ($name:ident, $m:ident) => {
+        mod $name {
+            use harness::$m::*;
+            use harness::*;
+            use std::io::Write as _;
+            fn rebuild(cfg: (usize, usize, u8), universe: u32, prefix: &[(usize, Op)], out: &mut impl std::io::Write) -> World {
+                let mut w = World { slots: vec![None, None, None], universe, cfg, log: Vec::new() };
+                new_cache(&mut w, 0, cfg.0, cfg.1, cfg.2, out);
+                for (slot, op) in prefix {
+                    if w.slots[*slot].is_none() && !matches!(op, Op::Clone(_)) { continue; }
+                    do_step(&mut w, *slot, op, out);
+                }
+                w
+            }
 
+            fn candidates(w: &World, rng: &mut Rng, tok0: u64) -> Vec<(usize, Op)> {
+                let c = match w.slots[0].as_ref() { Some(c) => c, None => return vec![] };
+                let e0 = lru_mem::entry_size(&K::probe(0), &V::mk(0, 0, 0));
+                let keys: Vec<u32> = c.keys().map(|k| k.id.0).collect();
+                let present = |rng: &mut Rng| if keys.is_empty() { 0 } else { keys[rng.below(keys.len() as u64) as usize] };
+                let absent = (0..w.universe + 1).find(|i| !keys.contains(i)).unwrap_or(w.universe);
+                let free = c.max_size().saturating_sub(c.current_size());
+                let maxs = c.max_size();
+                let mut t = tok0;
+                let mut nt = || { t += 1; t };
+                let mut v: Vec<(usize, Op)> = Vec::new();
+                let lru = keys.first().copied().unwrap_or(0);
+                let mru = keys.last().copied().unwrap_or(0);
+                // insertions: fresh key that fits, fresh key that needs eviction, replacement, too large
+                v.push((0, Op::Insert(absent, nt(), 0, nt(), 7, 0)));
+                if maxs >= e0 && maxs < 1 << 40 { v.push((0, Op::Insert(absent, nt(), 0, nt(), 7, (maxs - e0).min(free.saturating_add(e0))))); }
+                v.push((0, Op::Insert(present(rng), nt(), 5, nt(), 8, 17)));
+                if maxs < 1 << 40 { v.push((0, Op::Insert(absent, nt(), 0, nt(), 9, maxs.saturating_sub(e0) + 1))); }
+                v.push((0, Op::TryInsert(absent, nt(), 0, nt(), 7, 1)));
+                v.push((0, Op::TryInsert(present(rng), nt(), 0, nt(), 7, 1)));
+                v.push((0, Op::Get(present(rng)))); v.push((0, Op::Get(absent)));
+                v.push((0, Op::Peek(lru))); v.push((0, Op::Contains(mru))); v.push((0, Op::Touch(lru)));
+                v.push((0, Op::Remove(present(rng)))); v.push((0, Op::RemoveEntry(mru)));
+                v.push((0, Op::RemoveLru)); v.push((0, Op::RemoveMru));
+                // mutate: shrink, grow that fits, grow that needs eviction, grow beyond the limit, absent key
+                let cur_v = |id: u32| c.peek(&KeyId(id)).map(|x| x.heapv()).unwrap_or(0);
+                v.push((0, Op::Mutate(lru, nt(), cur_v(lru).saturating_sub(3))));
+                v.push((0, Op::Mutate(mru, nt(), cur_v(mru) + 1)));
+                if free < 1 << 40 { v.push((0, Op::Mutate(lru, nt(), cur_v(lru) + free + 1 + e0 / 2))); }
+                if maxs < 1 << 40 { v.push((0, Op::Mutate(present(rng), nt(), maxs))); }
+                v.push((0, Op::Mutate(absent, nt(), 5)));
+                v.push((0, Op::SetMax(c.current_size() / 2)));
+                v.push((0, Op::Retain(0x5555_5555_5555_5555))); v.push((0, Op::Retain(rng.next())));
+                v.push((0, Op::Reserve(c.capacity() + 1))); v.push((0, Op::TryReserve(c.capacity() + 5, false)));
+                v.push((0, Op::ShrinkToFit)); v.push((0, Op::ShrinkTo(1)));
+                v.push((0, Op::Clone(1)));
+                v
+            }
+
+            pub fn run(args: Vec<String>) {
+                let seed: u64 = args[1].parse().unwrap();
+                let nstates: u64 = args[2].parse().unwrap();
+                let steps: usize = args[3].parse().unwrap();
+                let max_pts: usize = args.get(4).and_then(|s| s.parse().ok()).unwrap_or(24);
+                let stdout = std::io::stdout();
+                let mut out = std::io::BufWriter::with_capacity(1 << 20, stdout.lock());
+                let mut sink = std::io::sink();
+                for st in 0..nstates {
+                    // the state: a generated prefix, replayed from scratch for every injection
+                    let profile = if st % 5 == 4 { "big" } else { "mix" };
+                    let (w0, alive) = gen_world(seed, st, if profile == "big" { steps * 6 } else { steps }, profile, &mut sink);
+                    let prefix: Vec<(usize, Op)> = w0.log.clone();
+                    let (cfg, universe) = (w0.cfg, w0.universe);
+                    if !alive || w0.slots[0].is_none() { for s in w0.slots { std::mem::forget(s); } continue; }
+                    // a clone target must be free
+                    let prefix: Vec<(usize, Op)> = { let mut p = prefix; if w0.slots[1].is_some() { p.push((1, Op::DropC)); } p };
+                    let mut rng = Rng::seeded(seed ^ 0xC16, st);
+                    let cands = candidates(&w0, &mut rng, st * 1_000_000 + 900_000);
+                    for s in w0.slots { std::mem::forget(s); }
+                    for (ci, (slot, op)) in cands.iter().enumerate() {
+                        // dry run: which callbacks does the operation make, in order?
+                        let mut w = rebuild(cfg, universe, &prefix, &mut sink);
+                        RECORD_CALLS.with(|r| r.set(true));
+                        let so = exec(&mut w, *slot, op);
+                        RECORD_CALLS.with(|r| r.set(false));
+                        let calls: Vec<u8> = CALLS.with(|c| c.borrow().clone());
+                        for s in w.slots { std::mem::forget(s); }
+                        if so.res == "panic" { continue; }
+                        // the uninjected run, on record: the model must agree with it before injected runs are compared with the model's panic points
+                        {
+                            writeln!(out, "# DRY state={} candidate={}", st, ci).unwrap();
+                            let mut w = rebuild(cfg, universe, &prefix, &mut out);
+                            do_step(&mut w, *slot, op, &mut out);
+                            finish(&mut w, &mut out, false);
+                            writeln!(out, "# INJ").unwrap();
+                        }
+                        // which call indices to inject at: all when few, else the first ones, the last ones and a sample
+                        let idx: Vec<usize> = if calls.len() <= max_pts { (0..calls.len()).collect() } else {
+                            let mut v: Vec<usize> = (0..max_pts / 2).collect();
+                            v.extend(calls.len() - max_pts / 4..calls.len());
+                            for _ in 0..max_pts / 4 { v.push(rng.below(calls.len() as u64) as usize); }
+                            v.sort(); v.dedup(); v };
+                        for j in idx {
+                            let kind = calls[j];
+                            let nth = calls[..j].iter().filter(|k| **k == kind).count() as i64;
+                            let mut w = rebuild(cfg, universe, &prefix, &mut out);
+                            do_step_inject(&mut w, *slot, op, Some((kind, nth)), &mut out);
+                            // further use, then drop
+                            let mut r2 = Rng::seeded(seed ^ (ci as u64) << 8 ^ j as u64, st);
+                            let t0 = st * 1_000_000 + 950_000 + (j as u64) * 10;
+                            let live: Vec<usize> = (0..3).filter(|s| w.slots[*s].is_some()).collect();
+                            for (n, s) in live.iter().enumerate() {
+                                let id = r2.below(universe as u64) as u32;
+                                do_step(&mut w, *s, &Op::Get(id), &mut out);
+                                do_step(&mut w, *s, &Op::Insert(id, t0 + 2 * n as u64 + 1, 0, t0 + 2 * n as u64 + 2, 3, 1), &mut out);
+                                do_step(&mut w, *s, &Op::Iter(0, "FBFB".into()), &mut out);
+                                do_step(&mut w, *s, &Op::RemoveLru, &mut out);
+                                // force the table to be rebuilt after the panic (twice), then look everything up again
+                                let cap = w.slots[*s].as_ref().map(|c| c.capacity()).unwrap_or(0);
+                                do_step(&mut w, *s, &Op::Reserve(cap + 1), &mut out);
+                                do_step(&mut w, *s, &Op::Get(id), &mut out);
+                                do_step(&mut w, *s, &Op::ShrinkToFit, &mut out);
+                                do_step(&mut w, *s, &Op::Iter(0, "BFBF".into()), &mut out);
+                            }
+                            finish(&mut w, &mut out, false);
+                        }
+                    }
+                }
+                out.flush().unwrap();
+            }
+
+        }
+    };
+}
+panic_gen!(gen_dd, trace);
+panic_gen!(gen_pd, trace_pd);
+panic_gen!(gen_dp, trace_dp);
+panic_gen!(gen_dn, trace_dn);
+
+/// panic_trace <seed> <nstates> <prefix_steps> [max_points_per_op] [types: dd | pd | dp | dn]
 fn main() {
     std::panic::set_hook(Box::new(|_| {}));
     let args: Vec<String> = std::env::args().collect();
-    let seed: u64 = args[1].parse().unwrap();
-    let nstates: u64 = args[2].parse().unwrap();
-    let steps: usize = args[3].parse().unwrap();
-    let max_pts: usize = args.get(4).and_then(|s| s.parse().ok()).unwrap_or(24);
-    let stdout = std::io::stdout();
-    let mut out = std::io::BufWriter::with_capacity(1 << 20, stdout.lock());
-    let mut sink = std::io::sink();
-    for st in 0..nstates {
-        // the state: a generated prefix, replayed from scratch for every injection
-        let profile = if st % 5 == 4 { "big" } else { "mix" };
-        let (w0, alive) = gen_world(seed, st, if profile == "big" { steps * 6 } else { steps }, profile, &mut sink);
-        let prefix: Vec<(usize, Op)> = w0.log.clone();
-        let (cfg, universe) = (w0.cfg, w0.universe);
-        if !alive || w0.slots[0].is_none() { for s in w0.slots { std::mem::forget(s); } continue; }
-        // a clone target must be free
-        let prefix: Vec<(usize, Op)> = { let mut p = prefix; if w0.slots[1].is_some() { p.push((1, Op::DropC)); } p };
-        let mut rng = Rng::seeded(seed ^ 0xC16, st);
-        let cands = candidates(&w0, &mut rng, st * 1_000_000 + 900_000);
-        for s in w0.slots { std::mem::forget(s); }
-        for (ci, (slot, op)) in cands.iter().enumerate() {
-            // dry run: which callbacks does the operation make, in order?
-            let mut w = rebuild(cfg, universe, &prefix, &mut sink);
-            RECORD_CALLS.with(|r| r.set(true));
-            let so = exec(&mut w, *slot, op);
-            RECORD_CALLS.with(|r| r.set(false));
-            let calls: Vec<u8> = CALLS.with(|c| c.borrow().clone());
-            for s in w.slots { std::mem::forget(s); }
-            if so.res == "panic" { continue; }
-            // the uninjected run, on record: the model must agree with it before injected runs are compared with the model's panic points
-            {
-                writeln!(out, "# DRY state={} candidate={}", st, ci).unwrap();
-                let mut w = rebuild(cfg, universe, &prefix, &mut out);
-                do_step(&mut w, *slot, op, &mut out);
-                finish(&mut w, &mut out, false);
-                writeln!(out, "# INJ").unwrap();
-            }
-            // which call indices to inject at: all when few, else the first ones, the last ones and a sample
-            let idx: Vec<usize> = if calls.len() <= max_pts { (0..calls.len()).collect() } else {
-                let mut v: Vec<usize> = (0..max_pts / 2).collect();
-                v.extend(calls.len() - max_pts / 4..calls.len());
-                for _ in 0..max_pts / 4 { v.push(rng.below(calls.len() as u64) as usize); }
-                v.sort(); v.dedup(); v };
-            for j in idx {
-                let kind = calls[j];
-                let nth = calls[..j].iter().filter(|k| **k == kind).count() as i64;
-                let mut w = rebuild(cfg, universe, &prefix, &mut out);
-                do_step_inject(&mut w, *slot, op, Some((kind, nth)), &mut out);
-                // further use, then drop
-                let mut r2 = Rng::seeded(seed ^ (ci as u64) << 8 ^ j as u64, st);
-                let t0 = st * 1_000_000 + 950_000 + (j as u64) * 10;
-                let live: Vec<usize> = (0..3).filter(|s| w.slots[*s].is_some()).collect();
-                for (n, s) in live.iter().enumerate() {
-                    let id = r2.below(universe as u64) as u32;
-                    do_step(&mut w, *s, &Op::Get(id), &mut out);
-                    do_step(&mut w, *s, &Op::Insert(id, t0 + 2 * n as u64 + 1, 0, t0 + 2 * n as u64 + 2, 3, 1), &mut out);
-                    do_step(&mut w, *s, &Op::Iter(0, "FBFB".into()), &mut out);
-                    do_step(&mut w, *s, &Op::RemoveLru, &mut out);
-                    // force the table to be rebuilt after the panic (twice), then look everything up again
-                    let cap = w.slots[*s].as_ref().map(|c| c.capacity()).unwrap_or(0);
-                    do_step(&mut w, *s, &Op::Reserve(cap + 1), &mut out);
-                    do_step(&mut w, *s, &Op::Get(id), &mut out);
-                    do_step(&mut w, *s, &Op::ShrinkToFit, &mut out);
-                    do_step(&mut w, *s, &Op::Iter(0, "BFBF".into()), &mut out);
-                }
-                finish(&mut w, &mut out, false);
-            }
-        }
+    match args.get(5).map(|s| s.as_str()).unwrap_or("dd") {
+        "pd" => gen_pd::run(args),
+        "dp" => gen_dp::run(args),
+        "dn" => gen_dn::run(args),
+        _ => gen_dd::run(args),
     }
-    out.flush().unwrap();
 }
